@@ -384,7 +384,20 @@ def cell_of(action, ids):
             "nodes": [ids.of(x) for x in (data.flat if data.shape else [data.item()])]}
 
 
-HEAP_FUNCS = ("lookup", "ident")
+def _heap_kind(st, live):
+    """the statements that are replayed on the heap model: the ones whose code path writes to `.nodes` in place or hands
+    back an existing object"""
+    if st["op"] == "transform" and st.get("func") in ("lookup", "ident"):
+        if st["func"] == "ident" or all(t in live for t in st["r"]):
+            return "lookup" if st["func"] == "lookup" else "self"
+        return None
+    if st["op"] == "alias":
+        return "alias"
+    if st["op"] in ("stack", "concatenate") and st["a"] in live:
+        n = live[st["a"]].nodes
+        if st["dim"] in n.dims and n.sizes[st["dim"]] == 1:
+            return "combine"
+    return None
 
 
 # ----------------------------------------------------------------------------- oracle
@@ -411,14 +424,23 @@ def oracle_program(prog, heapops=None, union=True, probe_default=False, vias=("f
                 if i not in snaps:
                     snaps[i] = snapshot(a)
             pending.clear()
-            if heapops is not None and st["op"] == "transform" and st.get("func") in HEAP_FUNCS:
-                order = sorted(live)
+            heapkind = _heap_kind(st, live)
+            if heapops is not None and heapkind:
+                # one cell per action OBJECT (two variables may hold the same object)
+                order = []
+                for i in sorted(live):
+                    if not any(live[i] is live[j] for j in order):
+                        order.append(i)
+                cell_index = {i: next(n_ for n_, j in enumerate(order) if live[j] is live[i]) for i in live}
                 cells = [cell_of(live[i], ids) for i in order]
-                table = st["r"] if st["func"] == "lookup" else [st["a"]] * len(st["params"])
-                if all(c is not None for c in cells) and all(t in live for t in table):
-                    pending.update({"order": order, "heap": cells, "a": order.index(st["a"]),
-                                    "kind": "lookup" if st["func"] == "lookup" else "self",
-                                    "targets": [order.index(t) for t in table], "dim": st["dim"], "axis": st["axis"]})
+                if all(c is not None for c in cells):
+                    rec = {"heap": cells, "a": cell_index[st["a"]], "kind": heapkind}
+                    if heapkind in ("lookup", "self"):
+                        table = st["r"] if st["func"] == "lookup" else [st["a"]] * len(st["params"])
+                        rec.update({"targets": [cell_index[t] for t in table], "dim": st["dim"], "axis": st["axis"]})
+                    elif heapkind == "combine":
+                        rec.update({"method": "stack" if st["op"] == "stack" else "concat", "d": st["dim"], "keep": st["keep"]})
+                    pending.update({"order": order, "rec": rec})
         else:
             for i, a in live.items():
                 now = snapshot(a)
@@ -440,14 +462,15 @@ def oracle_program(prog, heapops=None, union=True, probe_default=False, vias=("f
             if not isinstance(env[k], tuple) and any(env[k] is env[i] for i in live):
                 prog.setdefault("_aliases", []).append(k)
             if pending:
-                rec = {key: pending[key] for key in ("heap", "a", "kind", "targets", "dim", "axis")}
+                rec = pending["rec"]
                 r = env[k]
                 if isinstance(r, tuple):
                     real = {"err": r[1]}
                 else:
                     after = [cell_of(live[i], ids) for i in pending["order"]]
                     res = cell_of(r, ids)
-                    real = None if (res is None or any(c is None for c in after)) else {"heap": after, "result": res}
+                    alias = next((n_ for n_, i in enumerate(pending["order"]) if live[i] is r), None)
+                    real = None if (res is None or any(c is None for c in after)) else {"heap": after, "result": res, "alias_of": alias}
                 if real is not None:
                     heapops.append((k, rec, real))
     prog.pop("_aliases", None)
@@ -732,7 +755,7 @@ def model_names(progs, envs, heaps=None):
                 stats["heapops_out_of_scope"] += 1
                 continue
             stats["heapops"] += 1
-            mo = {key: mo[key] for key in ("err", "heap", "result") if key in mo}
+            mo = {key: mo[key] for key in ("err", "heap", "result", "alias_of") if key in mo}
             if "err" in real:
                 stats["heapops_err"] += 1
             if mo != real:
